@@ -79,6 +79,25 @@ def w_wrap(ki: int, seed: int, thorough: bool) -> Part:
                     part.viol(exc_sig(f"tamper-raises-undeclared:{what}", exc), f"{exc!r}", case)
                     continue
                 part.viol(f"tampered-wrapper-accepted:{what}", f"sid={sid} seq={seq} frame={plain.hex()}", case, rank=(len(plain),))
+            # the wrapper's own header is part of what the MAC covers: a parsed wrapper whose header object was altered afterwards
+            # (total length, service type) must not verify (every byte-level change of the header is already refused by the parser)
+            for what in ("total-length+1", "total-length-1", "total-length=0", "service-type=routing-indication", "service-type=tunnelling-request"):
+                part.evaluations += 1
+                f3 = KNXIPFrame.from_knx(ref)[0]
+                if what.startswith("total-length"):
+                    f3.header.total_length = {"+1": f3.header.total_length + 1, "-1": f3.header.total_length - 1, "=0": 0}[what[12:]]
+                else:
+                    from xknx.knxip.knxip_enum import KNXIPServiceType
+
+                    f3.header.service_type_ident = KNXIPServiceType.ROUTING_INDICATION if "routing" in what else KNXIPServiceType.TUNNELLING_REQUEST
+                try:
+                    s.decrypt_frame(f3)
+                except (ip_secure_mod.KNXSecureValidationError, CouldNotParseKNXIP, AssertionError):
+                    continue
+                except Exception as exc:  # noqa: BLE001
+                    part.viol(exc_sig("tamper-raises-undeclared:header-object", exc), f"{what}: {exc!r}", case)
+                    continue
+                part.viol("tampered-wrapper-accepted:header-object", f"{what}: wrapper with altered header still unwraps; sid={sid} seq={seq}", case, rank=(len(plain),))
             if seq == 1 and sid == 1 and (fi % (3 if thorough else 9) == 0 or fi >= len(frames) - 6):
                 for pos in range(len(ref)):
                     for bit in range(8):
@@ -185,7 +204,7 @@ def run(ctx: Ctx) -> None:
     ctx.rule = (
         "SecureSession.encrypt_frame == independent reference (validated against the worked example of 03.08.09) byte for byte and decrypt_frame(reference wrapper) == plain frame for: minimal/"
         "typical frames of every body class + TunnellingRequests with cEMI lengths {0,1,15,16,17,255} x 3 keys x session id {1,65535} x sequence {0,1,2^48-1}; wrong key / wrong session id and "
-        "EVERY single-bit flip of a subset of wrappers rejected; handshake: 3x2 key pairs x passwords {a,secret,u-umlaut} x user ids {1,2,127} x with/without device authentication x 2 session ids: "
+        "EVERY single-bit flip of a subset of wrappers rejected, as are parsed wrappers whose header object was altered; handshake: 3x2 key pairs x passwords {a,secret,u-umlaut} x user ids {1,2,127} x with/without device authentication x 2 session ids: "
         "authenticate MAC and session key equal the reference, forged SessionResponse MACs rejected; TimerNotify MACs equal the reference"
     )
     ctx.pmap(w_wrap, [(k, ctx.seed, ctx.thorough) for k in range(3)])
